@@ -37,8 +37,11 @@ type c05Row[T any] struct {
 type c05ListRow struct {
 	V []float64 `parquet:"v,list"`
 }
+type c05OptListRow struct {
+	V []*int64 `parquet:"v,list"`
+}
 
-var c05Kinds = []string{"int32", "int64", "uint32", "uint64", "float", "double", "string2", "string16", "string", "doublelist"}
+var c05Kinds = []string{"int32", "int64", "uint32", "uint64", "float", "double", "string2", "string16", "string", "doublelist", "optlist"}
 
 // concretisation tables: index 0 = the special symbol, 1..3 = increasing values; several
 // variants per kind, selected by the seed
@@ -186,6 +189,22 @@ func c05Write(kind string, variant int, pages [][]int) (data []byte, err error) 
 			_, e := w.Write([]c05ListRow{row})
 			return e
 		})
+	case "optlist":
+		// one row per page: a list of nullable int64 elements (nulls kept as null elements)
+		w := parquet.NewGenericWriter[c05OptListRow](buf, opts...)
+		err = write(w, func(p []int) error {
+			row := c05OptListRow{}
+			for _, s := range p {
+				if s >= 0 {
+					x := c05I64[v%len(c05I64)][s]
+					row.V = append(row.V, &x)
+				} else {
+					row.V = append(row.V, nil)
+				}
+			}
+			_, e := w.Write([]c05OptListRow{row})
+			return e
+		})
 	default: // string kinds
 		w := parquet.NewGenericWriter[c05Row[string]](buf, opts...)
 		err = write(w, func(p []int) error {
@@ -209,6 +228,8 @@ func c05OrderKind(kind string) string {
 		return "bytes"
 	case "doublelist":
 		return "double"
+	case "optlist":
+		return "int64"
 	}
 	return kind
 }
